@@ -108,9 +108,6 @@ theorem filter_render_not (r : RTour) (j : Nat) :
   rw [List.filter_map]
   show List.map jobAct _ = List.map jobAct (List.filter (fun p => p.fst != j) r.mid)
   congr 1
-  apply List.filter_congr
-  intro p _
-  simp [hasJob_jobAct, bne]
 
 theorem sim_remove {t r} (h : Sim t r) (j : Nat) :
     (t.remove j).2 = (r.remove j).2 ∧ Sim (t.remove j).1 (r.remove j).1 := by
